@@ -18,7 +18,7 @@ def plan(ctx):
     k = P.per_interp_shards(ctx)
     for v in ctx.producers:
         if ctx.tier == "quick":
-            cases = P.corpus_cases(ctx, v, n_files=80, n_w3=120, modes=10, max_file_bytes=100000)
+            cases = P.corpus_cases(ctx, v, n_files=200, n_w3=250, modes=30, max_file_bytes=150000)
         else:
             cases = P.corpus_cases(ctx, v, all_files=True, n_w3=3000, modes=300)
         shards.extend(P.split(ctx, v, cases, k, "C14:"))
